@@ -447,7 +447,8 @@ theorem attrBody_inv (two : Bool) (buf : Bytes) (s : AState) (flags code alen po
       · intro e he heq; exact absurd heq (hnoErr e he)
     simp only at h
     split at h
-    · injection h with h; subst h
+    · rw [attrKnownW_eq] at h
+      injection h with h; subst h
       exact attrKnown_inv two buf _ flags code alen pos _ hfresh hfl
     · exact attrUnknown_inv buf _ flags code alen pos hfresh hfl hnoErr s' h
 
@@ -650,7 +651,7 @@ theorem parse_update_invariants {dec : HypDec} {p : Profile} {c : Codec} {buf : 
           exact hinv.disjoint b hb' e h1
         all_goals (exfalso; revert hnm; decide)
 
-theorem parseOpen_is_open {buf : Bytes} {hdrErr : Notif} {m : Msg} (h : parseOpen buf hdrErr = .ok m) :
+theorem parseOpen_is_open {p : Profile} {buf : Bytes} {hdrErr : Notif} {m : Msg} (h : parseOpen p buf hdrErr = .ok m) :
     ∃ a b c d, m = .open a b c d := by
   unfold parseOpen at h
   split at h
@@ -751,7 +752,7 @@ theorem attrBody_err {two : Bool} {buf : Bytes} {s : AState} {flags code alen po
     · cases h
   · simp only at h
     split at h
-    · cases h
+    · rw [attrKnownW_eq] at h; cases h
     · exfalso
       unfold attrUnknown at h
       split at h
